@@ -74,3 +74,13 @@ def run_mech_behaviours(chk, num=400, procs=4, depth=10):
                         'states': r['states'], 'behaviours': len(r['hists']), 'wall_s': round(r['wall'], 2)})
     chk.states += r['states']
     chk.queue(edges.programs_from_mech_histories(r['hists']), 'tlc-simulated-mechanism-behaviours')
+
+
+def run_array_behaviours(chk, num=60, procs=4, depth=8):
+    """Behaviours of the Array machine (spec/ArraySim.tla, `tlc -simulate`) replayed on the real Array (queued)."""
+    from harness import tlc
+    r = tlc.simulate_par('ArraySim.tla', 'MC_ArraySim.cfg', chk.wd, procs, num, depth + 4, chk.seed + 41)
+    chk.mc_runs.append({'module': 'ArraySim.tla', 'cfg': 'MC_ArraySim.cfg', 'mode': f'simulate x{procs} num={num} depth={depth}',
+                        'states': r['states'], 'behaviours': len(r['hists']), 'wall_s': round(r['wall'], 2)})
+    chk.states += r['states']
+    chk.queue(edges.programs_from_array_histories(r['hists']), 'tlc-simulated-array-behaviours')
